@@ -201,6 +201,23 @@ def run_case(ctx, case):
         judge("same_arrays_then_setter_on_second:first_vs_reference", first, reference, True, {"what": what})
         third = second.copy()
         judge("same_arrays_then_setter_on_second:copy_of_second", second, third, True, {"what": what})
+    # (2b) coordinate arrays of different precision: longitudes single, latitudes double (a file with float32 lon and a computed lat);
+    # one latitude differs by less than single precision resolves
+    try:
+        lon32 = np.asarray(lon, dtype=np.float32)
+        la_b = lat.copy()
+        la_b[i] = la_b[i] + (1e-9 if la_b[i] < 89 else -1e-9)
+        A32 = U.Grid.from_topology(lon32.copy(), lat.copy(), conn.copy(), fill_value=ux.INT_FILL)
+        B32 = U.Grid.from_topology(lon32.copy(), la_b, conn.copy(), fill_value=ux.INT_FILL)
+        C32 = U.Grid.from_topology(lon32.copy(), lat.copy(), conn.copy(), fill_value=ux.INT_FILL)
+        judge("mixed_precision_coordinates:equal", A32, C32, True)
+        judge("mixed_precision_coordinates:one_lat", A32, B32, False)
+        lo_b = lon32.copy()
+        lo_b[i] = np.nextafter(lo_b[i], np.float32(1000.0 if lo_b[i] < 100 else -1000.0))
+        judge("mixed_precision_coordinates:one_lon_ulp", A32, U.Grid.from_topology(lo_b, lat.copy(), conn.copy(), fill_value=ux.INT_FILL), False)
+        ctx.observe("mixed_precision_pairs")
+    except Exception as e:
+        ctx.check("no_exception", False, {"history": "mixed_precision", "exc": core.exc_sig(e)}, {"exc": repr(e)})
     # (3) derived quantities asked for on ONE side only: equal grids stay equal, different grids stay different
     TOUCH = ["face_lon", "face_areas", "edge_node_connectivity", "bounds", "node_x", "face_face_connectivity", "edge_lon", "node_face_connectivity"]
     pick = [TOUCH[int(j)] for j in rng.choice(len(TOUCH), size=3, replace=False)]
